@@ -104,7 +104,12 @@ extern int mpt_print_value(const MPT_STRUCT(value) *val, ssize_t (*save)(void *,
 	}
 	/* represent numeric value */
 	if ((adv = mpt_number_tostring(val, vfmt, buf, sizeof(buf))) >= 0) {
-		return save(dest, buf, adv);
+		int step;
+		/* incomplete number text is no valid representation */
+		if ((step = save(dest, buf, adv)) >= 0 && step < adv) {
+			return MPT_ERROR(MissingBuffer);
+		}
+		return step;
 	}
 	return adv;
 }
